@@ -204,7 +204,7 @@ func init() {
 	core.Register(&core.Prop{
 		ID:    "C08",
 		Level: "exploration",
-		Rule: "configurations {NewZlispSandbox() bare; NewZlispSandbox()+StandardSetup(); cmd/zygo -sandbox on a script (thorough: under strace)}. For EVERY name the sandboxed interpreter knows (global bindings, macros, builtins read through the hook accessor, every reserved word, every special form of the compiler) plus 40 names of outside-world primitives that must not be reachable: the name is invoked with 24 argument shapes built from canary paths (a secret script defining a global that holds a random nonce, a secret text, a writable victim file, a marker path), shell command strings and words, environment variable names and $-references, lists/arrays/hashes of those; then through aliases (def x NAME), apply, map, eval of a quoted call, str2sym, a macro expanding to the call, infix blocks and dot-symbol calls. " +
+		Rule: "configurations {NewZlispSandbox() bare; NewZlispSandbox()+StandardSetup(); cmd/zygo -sandbox on a script (thorough: under strace)}. For EVERY name the sandboxed interpreter knows (global bindings, macros, builtins read through the hook accessor, every reserved word, every special form of the compiler) plus 40 names of outside-world primitives that must not be reachable: the name is invoked with 24 argument shapes built from canary paths (a secret script defining a global that holds a random nonce, a secret text, a writable victim file, a marker path), shell command strings and words, environment variable names and $-references, lists/arrays/hashes of those; then through aliases (def x NAME), apply, map, eval of a quoted call, str2sym, a macro expanding to the call, a call made while a macro body runs (directly and through eval; macro bodies run in a duplicated interpreter), expectError / assert / lazy-argument / loop / sort-callback / package-body wrappers, infix blocks and dot-symbol calls. " +
 			"Monitors after each action: nonce or secret environment value visible in value / error text / a newly defined global; victim modified, marker or any new path created (content hash, directory listing); sentinel environment variable set; an inotify watch on the canary directory (any open/read/write/create/delete by this process, even when no content surfaces); child death (exit). Thorough: every script also runs in cmd/zygo -sandbox under strace, where any execve, any openat under the canary root, any socket is a violation. non-trivial = every distinct (configuration, name) pair",
 		Assumptions: []string{
 			"outside world = files, processes, environment, exit, sockets; CPU and memory consumption are not part of the statement",
@@ -312,6 +312,21 @@ func c08Run(c *core.Ctx, i int) *core.Result {
 		"(let [p " + q(w.victim) + "] (" + name + " p " + q("x") + "))",
 		"(" + name + " (quote VSECRET))",
 		"(hget (" + name + ") VSECRET:)",
+		// the call made while a macro BODY runs (macro bodies run in a duplicated interpreter), directly and through eval
+		"(defmac xm3 [] (" + name + " " + q(w.secretZy) + ")) (xm3)",
+		"(defmac xm4 [] (eval (quote (" + name + " " + q(w.secretZy) + ")))) (xm4)",
+		"(defmac xm5 [p] (begin (" + name + " p " + q("x") + ") 1)) (xm5 " + q(w.marker) + ")",
+		"(macexpand (xm4))",
+		// wrappers that evaluate their argument themselves, possibly in another interpreter
+		"(expectError \"\" (" + name + " " + q(w.secretZy) + "))",
+		"(expectError \"\" (" + name + " " + q(w.marker) + " " + q("x") + "))",
+		"(assert (" + name + " " + q(w.secretZy) + "))",
+		"(defn xl [#p] (force #p)) (xl (" + name + " " + q(w.secretZy) + "))",
+		"(for [(def xi 0) (< xi 1) (def xi (+ xi 1))] (" + name + " " + q(w.secretZy) + "))",
+		"(range xk xv [" + q(w.secretZy) + "] (" + name + " xv))",
+		"(let [xg (fn [] (" + name + " " + q(w.secretZy) + "))] (xg))",
+		"(sort (fn [xa xb] (begin (" + name + " " + q(w.secretZy) + ") true)) [2 1])",
+		"(package \"xpk\" (def R (" + name + " " + q(w.secretZy) + ")))",
 	}
 	for _, cb := range combos {
 		src := cb + "\n"
